@@ -84,6 +84,28 @@ theorem pageSat_eq_pageOf (l : List α) (size page : Nat) (hl : l.length < USIZE
     have h2 : l.drop (page * size) = [] := List.drop_eq_nil_of_le (by omega)
     simp [h, h1, h2]
 
+/-! ### the children / parents accessors, unrepaired and repaired -/
+
+theorem pageKids_unfixed (l : List α) (size page : Nat) :
+    pageKids false l size page = pageChecked l size page := by
+  simp [pageKids]
+
+/-- with `saturating_mul` every page number answers, and answers the plain page -/
+theorem pageKids_fixed (l : List α) (size page : Nat) (hl : l.length < USIZE) :
+    pageKids true l size page = .ok (pageOf l size page) := by
+  simp [pageKids, pageSat_eq_pageOf l size page hl]
+
+/-- whichever variant the source has, a 200 answer is the plain page -/
+theorem pageKids_ok (fixed : Bool) (l : List α) (size page : Nat) (hl : l.length < USIZE)
+    (r : List α × Bool) (h : pageKids fixed l size page = .ok r) : r = pageOf l size page := by
+  cases fixed with
+  | true => rw [pageKids_fixed l size page hl] at h; cases h; rfl
+  | false =>
+    rw [pageKids_unfixed] at h
+    by_cases hp : page * size < USIZE
+    · rw [pageChecked_ok _ _ _ hp] at h; cases h; rfl
+    · rw [pageChecked_panic _ _ _ (Nat.le_of_not_lt hp)] at h; cases h
+
 /-! ### signed indexing -/
 
 theorem nthSigned_nonneg (l : List α) (n : Nat) : nthSigned l (n : Int) = l[n]? := by
